@@ -107,9 +107,8 @@ Proof.
   pose proof (addSS_denotes Qc qc0 qc1 Qcplus Qcmult Qcminus Qcopp qczero ring_ok_Qc qchalf qcid 8 nat Nat.eqb ex_leqb_spec ex_idx
                 as_is ex_m 0 1 2 (Q2Qc (-3 # 4)) eq_refl eq_refl (ex_site_ok 0 ltac:(lia)) (ex_site_ok 1 ltac:(lia))) as D.
   destruct D as (Dn & h & E & HA). exists h. split; [exact E|]. split; [exact HA|].
-  eapply (addSS_su2 Qc qc0 qc1 Qcplus Qcmult Qcminus Qcopp qczero ring_ok_Qc qchalf qchalf_ok 8 nat ex_idx Nat.eqb ex_leqb_spec qcid as_is ex_sites);
-    try exact E; try reflexivity.
-  - apply ex_sites_ok.
+  refine (proj1 (addSS_su2 Qc qc0 qc1 Qcplus Qcmult Qcminus Qcopp qczero ring_ok_Qc qchalf qchalf_ok 8 nat ex_idx Nat.eqb ex_leqb_spec qcid as_is ex_sites
+                  ex_m 0 1 2 (Q2Qc (-3 # 4)) h ex_sites_ok _ _ eq_refl eq_refl E)).
   - cbn; tauto.
   - cbn; tauto.
 Qed.
